@@ -24,7 +24,7 @@ MANIFEST_INFO = {
     "engine": "D",
     "design_ref": "DESIGN.md section 5, C15",
     "technique": "exhaustive enumeration of Spinner.run histories (function shape x firing time relative to the timeout x leftovers x signal handlers x 1-3 runs per Spinner) on the real SelectReactor under a virtual clock; tie order of simultaneous calls and the instant of an external interrupt are chooser choice points explored by stateless DFS; timeline reference model",
-    "level_text": "Every 1- and 2-run history over 16 function shapes (5 signal/stop-wrapper configurations for single runs) (return/raise/Deferred firing or failing before, at, after the timeout or never/stop requested by the function/re-entry) x 5 leftover shapes x clear_junk or not (timeout 2; single runs also with timeouts 0 and 1), 2- and 3-run histories in which the Deferred of a run that ended without it fires or fails before the next run starts or half a time unit into it, and every 3-run history over a reduced alphabet, is executed on one Spinner with every tie order and every interrupt instant (<=1 per run); result, exception type, junk accounting, reactor cleanliness, reactor.stop identity and the three signal handlers are checked against the model after every run.",
+    "level_text": "Every 1- and 2-run history over 17 function shapes (5 signal/stop-wrapper configurations for single runs) (return/raise/Deferred firing or failing before, at, after the timeout or never/stop requested by the function/a slow callback overrunning both the timeout and a later stop request/re-entry on the same and through a second Spinner) x 5 leftover shapes x clear_junk or not (timeout 2; single runs also with timeouts 0 and 1), 2- and 3-run histories in which the Deferred of a run that ended without it fires or fails before the next run starts or half a time unit into it, and every 3-run history over a reduced alphabet, is executed on one Spinner with every tie order and every interrupt instant (<=1 per run); result, exception type, junk accounting, reactor cleanliness, reactor.stop identity and the three signal handlers are checked against the model after every run.",
     "level_note": "The real reactor code runs on a virtual clock (seconds()/doIteration() overridden): the installed wall-clock global reactor is not used because the relative order of 'Deferred fires' and 'timeout fires' could not be owned there. Interrupts are delivered between reactor iterations (every distinct instant), not between two calls due at the same instant.",
 }
 
